@@ -145,7 +145,7 @@ pub fn search_c05(rng: &mut Rng, thorough: bool) -> SearchResult {
     let mut r = SearchResult::default();
     let maxres = if thorough { 9 } else { 7 };
     r.rule = format!(
-        "every cell description of resolution -1..{} (all faces, quintants, positions) plus structured/random positions up to resolution 29: serialize == documented layout, deserialize inverts, get_resolution agrees, IDs pairwise distinct and canonical; IDs sharing a bit field (same 6-bit prefix at resolution 0 and above, same position bits elsewhere) decoded back to back in both orders; hex: round trip, shape, rejection of empty/non-hex/too-wide strings. non-trivial = distinct cell descriptions / distinct hex inputs",
+        "every cell description of resolution -1..{} (all faces, quintants, positions) plus structured/random positions up to resolution 29: serialize == documented layout, deserialize inverts, get_resolution agrees, IDs pairwise distinct and canonical; IDs sharing a bit field (same 6-bit prefix at resolution 0 and above, same position bits elsewhere) decoded back to back in both orders; ID-shaped words whose leading bits name no face / quintant are rejected by deserialize and never returned by parent / children calls; hex: round trip, shape, rejection of empty/non-hex/too-wide strings. non-trivial = distinct cell descriptions / distinct hex inputs",
         maxres
     );
     let mut ids: Vec<u64> = Vec::new();
@@ -245,6 +245,48 @@ pub fn search_c05(rng: &mut Rng, thorough: bool) -> SearchResult {
                         Ok(Ok(c)) if c == *b => {}
                         other => r.viol("codec", format!("deserialize({:x}) directly after deserialize({:x}) = {:?}, expected {:?}", ib, ia, other.map_err(|_| "panic"), b)),
                     }
+                }
+            }
+        }
+    }
+    // words that have the shape of an ID (marker bit in a legal place, zeros below) but whose leading 6 bits name no face
+    // (resolution 0: 12..63) or no quintant (resolution >= 1: 60..63): never decoded into a description, and no call
+    // returns them or any other non-canonical word as an ID
+    for top in 0..64u64 {
+        for res in [0, 1, 2, 7, 29] {
+            let legal = if res == 0 { top < 12 } else { top < 60 };
+            let low = if res == 0 { 1u64 << 57 } else { valid_cell(rng, res) & ((1u64 << 58) - 1) };
+            let w = (top << 58) | low;
+            r.evaluations += 1;
+            r.count(if legal { "id_shaped_words_legal" } else { "id_shaped_words_naming_no_cell" });
+            match catch_unwind(|| deserialize(w)) {
+                Ok(Ok(c)) => {
+                    let valid = (c.origin_id as usize) < 12 && c.segment < 5 && c.resolution == res && (res < 2 || c.s < max_s(res));
+                    if !legal || !valid {
+                        r.viol("codec", format!("deserialize({:x}) = {:?}: {}", w, c, if legal { "not a valid cell description" } else { "the word is the encoding of no cell (leading bits name no face / quintant at this resolution)" }));
+                    } else if serialize(&c).ok() != Some(w) {
+                        r.viol("codec", format!("serialize(deserialize({:x})) = {:x?}", w, serialize(&c)));
+                    }
+                }
+                Ok(Err(_)) => {
+                    if legal {
+                        r.viol("codec", format!("deserialize({:x}) is rejected although the word is the ID of a cell", w));
+                    }
+                }
+                Err(_) => r.viol("codec", format!("deserialize({:x}) panicked", w)),
+            }
+            let mut outs: Vec<u64> = Vec::new();
+            for t in [None, Some(0), Some(res)] {
+                if let Ok(p) = api::cell_to_parent(w, t) {
+                    outs.push(p);
+                }
+                if let Ok(v) = api::cell_to_children(w, t) {
+                    outs.extend(v);
+                }
+            }
+            for x in outs {
+                if !is_canonical(x) {
+                    r.viol("canonical", format!("API returned non-canonical id {:x} from the word {:x}", x, w));
                 }
             }
         }
